@@ -345,11 +345,22 @@ func reachable(fn *ssa.Function, cut map[Edge]bool) map[*ssa.BasicBlock]bool {
 
 // reachableCond: reachable with state-dependent cuts.
 func reachableCond(fn *ssa.Function, cut map[Edge]bool, condCut func(e Edge, st nilState) bool) map[*ssa.BasicBlock]bool {
+	return reachableCondSeed(fn, cut, condCut, nil)
+}
+
+// reachableCondSeed: the traversal starts out knowing the truth of the values in seed (the results of calls whose
+// outcome the scenario under examination fixes), so that a test of such a value that has travelled through a phi or
+// a negation is followed on the feasible side only.
+func reachableCondSeed(fn *ssa.Function, cut map[Edge]bool, condCut func(e Edge, st nilState) bool, seed nilState) map[*ssa.BasicBlock]bool {
 	seen := map[*ssa.BasicBlock]bool{}
 	if len(fn.Blocks) == 0 {
 		return seen
 	}
-	exploreCond([]psItem{{fn.Blocks[0], nilState{}}}, cut, condCut, false, func(b *ssa.BasicBlock, _ nilState) bool {
+	st := nilState{}
+	for k, v := range seed {
+		st[k] = v
+	}
+	exploreCond([]psItem{{fn.Blocks[0], st}}, cut, condCut, false, func(b *ssa.BasicBlock, _ nilState) bool {
 		seen[b] = true
 		return true
 	})
